@@ -39,13 +39,42 @@ def check_grouped(ctx: Ctx):
         ev = build_evaluator(prog, it_name, g)
         f, runs = run_evaluate(prog, ev)
         base = f"{f.qual}:input={it_name}"
-        if len(runs) != 1 or runs[0][0].decisions:
-            ctx.undecided("R12.2", f, f.node, base, f"grouped evaluation splits ({len(runs)} paths) on: {[norm(d[0]) for o, _ in runs for d in o.decisions if isinstance(d[0], ast.AST)][:4]}")
-            continue
-        out, (it, pred, ref) = runs[0]
+        multi = len(runs) > 1
+        for out, (it, pred, ref) in runs:
+            _check_one_path(ctx, prog, f, base, out, it, pred, ref, ev, pair_cls, multi)
+            n_calls += len(it.root.pipeline_calls) if out.kind == "return" else 0
+        # R12.1 undefined labels
+        _check_undefined(ctx, prog, f, base, ev)
+    if n_calls < 9:
+        ctx.undecided("R12.floor", None, None, "floor:R12", f"{n_calls} group evaluations inspected, confirmed floor is 9")
+
+
+def _check_undefined(ctx, prog, f, base, ev):
+    for side in ("PRED", "REF"):
+        labels = {k: list(v) for k, v in ARRAY_LABELS.items()}
+        labels[side] = labels[side] + [9]
+        f2, runs2 = run_evaluate(prog, ev, labels=labels)
+        for o2, (it2, _, _) in runs2:
+            ctx.decide("R12.1", f, o2.node, base + f":undefined-label-in-{side}", "input with a non-zero label that belongs to no group is rejected before any group is evaluated", o2.kind == "raise" and not it2.root.pipeline_calls, {"outcome": o2.kind, "exc": o2.exc, "pipeline_calls": len(it2.root.pipeline_calls)})
+            for node, keys in it2.root.__dict__.get("narrowed_tests", []):
+                ctx.violated("R12.1", f, node, base + f":undefined-label-in-{side}:narrowed", "the defined-label test compares in a narrowed dtype: group labels outside the array's dtype wrap around and an undefined label that aliases one of them is accepted", {"labels": repr(keys)})
+
+
+def _check_one_path(ctx, prog, f, base, out, it, pred, ref, ev, pair_cls, multi):
+        n_calls = 0
+        if multi:
+            dtxt = "; ".join(f"{norm(nd) if isinstance(nd, ast.AST) else '?'}={d}" for nd, v, d in out.decisions)
+            bad = [(n, b) for (n, b, idx, v, fresh) in it.root.stores if not fresh]
+            if bad:
+                ctx.violated("R12.2", f, bad[0][0], base + ":no-mutation", "a group's restriction writes into the caller's array on some path: later groups (and later evaluations) see the modified data", {"stores": [norm(n)[:80] for n, _ in bad][:3], "path": dtxt[:200]})
+                return
+            base = base + f"[{dtxt[:120]}]"
+        if out.decisions and not multi:
+            ctx.undecided("R12.2", f, f.node, base, f"grouped evaluation splits on: {[norm(d[0]) for d in out.decisions if isinstance(d[0], ast.AST)][:4]}")
+            return
         if out.kind != "return" or not isinstance(out.value, dict):
             ctx.violated("R12.2", f, out.node, base, f"grouped evaluation of fully defined input does not return results: {out.kind} {out.exc}")
-            continue
+            return
         calls = it.root.pipeline_calls
         ctx.decide("R12.2", f, f.node, base + ":complete", "every group is evaluated exactly once", len(calls) == 3 and sorted(map(str, out.value)) == sorted(GROUP_LABELS), {"calls": len(calls), "groups": sorted(map(str, out.value))})
         for k, (kw, node) in enumerate(calls, start=1):
@@ -62,7 +91,6 @@ def check_grouped(ctx: Ctx):
             if gname not in GROUP_LABELS:
                 ctx.violated("R12.2", f, node, base + f":call{k}", "result of a group evaluation is not stored under a group name", {"stored": [str(x) for x in out.value]})
                 continue
-            n_calls += 1
             construct_ = base + f":group={gname}"
             want = GROUP_LABELS[gname]
             for nm, a, side in (("prediction", pa, "PRED"), ("reference", ra, "REF")):
@@ -88,15 +116,6 @@ def check_grouped(ctx: Ctx):
                 ctx.decide("R12.5", f, node, construct_ + ":cfg:" + cfg, f"pipeline parameter {cfg} receives the evaluator's {cfg}", kw.get(cfg) is cfgv[cfg] or (not isinstance(cfgv[cfg], list) and kw.get(cfg) == cfgv[cfg]), {"got": repr(kw.get(cfg))}, nontrivial=False)
         bad = [(n, b) for (n, b, idx, v, fresh) in it.root.stores if not fresh]
         ctx.decide("R12.2", f, f.node, base + ":no-mutation", "no in-place store reaches the caller's arrays", not bad, {"stores": [norm(n) for n, _ in bad][:4]})
-        # R12.1 undefined labels
-        for side in ("PRED", "REF"):
-            labels = {k: list(v) for k, v in ARRAY_LABELS.items()}
-            labels[side] = labels[side] + [9]
-            f2, runs2 = run_evaluate(prog, ev, labels=labels)
-            for o2, (it2, _, _) in runs2:
-                ctx.decide("R12.1", f, o2.node, base + f":undefined-label-in-{side}", "input with a non-zero label that belongs to no group is rejected before any group is evaluated", o2.kind == "raise" and not it2.root.pipeline_calls and not o2.decisions, {"outcome": o2.kind, "exc": o2.exc, "pipeline_calls": len(it2.root.pipeline_calls)})
-    if n_calls < 9:
-        ctx.undecided("R12.floor", None, None, "floor:R12", f"{n_calls} group evaluations inspected, confirmed floor is 9")
 
 
 def check_ungrouped(ctx: Ctx):
